@@ -145,7 +145,10 @@ structure MEvent where
   val : Option Int
   /-- class of the value object (primitives only; "" for `...`) -/
   vclass : String
+  /-- declared width in bytes of a primitive event's type (0 for `...` events) -/
+  width : Nat
   deriving DecidableEq, Repr, Inhabited
+
 
 inductive Err where
   | value (path : Path) (ty : String) (x : Int)
@@ -201,6 +204,12 @@ def intOfBytes (size : Nat) (signed : Bool) (bs : List Byte) : Int :=
 /-- `x.to_bytes(size, "big", signed=signed)` for in-range `x` (two's complement) -/
 def intToBytes (size : Nat) (x : Int) : List Byte :=
   toBE size (x % ((2 ^ (8 * size) : Nat) : Int)).toNat
+
+/-- `Binary.unmarshal` of one event, at the declared width -/
+def MEvent.bytes (e : MEvent) : List Byte :=
+  match e.val with
+  | some x => intToBytes e.width x
+  | none => []
 
 def inRange (size : Nat) (signed : Bool) (x : Int) : Bool :=
   if signed then decide (0 < size) && decide (-((2 ^ (8 * size - 1) : Nat) : Int) ≤ x) && decide (x < ((2 ^ (8 * size - 1) : Nat) : Int))
